@@ -223,16 +223,20 @@ fn c_write_styled(case: &Case, sink_sched: &Sched, fail_at: Option<u64>, flush_f
     let ctx: *mut c_void = (&mut *sink as *mut CbSink).cast();
     let mut cfg: c::MLAConfigHandle = null_mut();
     assert_eq!(st(c::mla_config_default_new(&mut cfg)), OK);
+    // the recipients' keys: all in one string and one call, or one call per key (each call ADDS to the list)
+    let split_keys = case.param("split_keys", 0) == 1;
     let mut pems = String::new();
     for i in 0..case.cfg.recipients.max(1) {
         pems.push_str(&keypair(case.cfg.key_seed, i).public_as_pem());
         pems.push('\n');
-    }
-    let pem_c = CString::new(pems).unwrap();
-    let s = st(c::mla_config_add_public_keys(cfg, pem_c.as_ptr()));
-    if s != OK {
-        out.new_status = s;
-        return out;
+        if split_keys || i + 1 == case.cfg.recipients.max(1) {
+            let pem_c = CString::new(std::mem::take(&mut pems)).unwrap();
+            let s = st(c::mla_config_add_public_keys(cfg, pem_c.as_ptr()));
+            if s != OK {
+                out.new_status = s;
+                return out;
+            }
+        }
     }
     let _ = c::mla_config_set_compression_level(cfg, case.cfg.level);
     let mut archive: c::MLAArchiveHandle = null_mut();
@@ -315,6 +319,11 @@ fn c_extract(case: &Case, image: &[u8], src_sched: &Sched, file_sched: &Sched, f
     let mut cfg: c::MLAConfigHandle = null_mut();
     assert_eq!(st(c::mla_reader_config_new(&mut cfg)), OK);
     if with_key {
+        // now and then two keys that belong to no recipient are added first (each call ADDS a candidate)
+        for d in 0..case.param("decoy_privs", 0) {
+            let pem = CString::new(keypair(case.cfg.key_seed ^ 0xDEC0, 40 + d as usize).private_as_pem()).unwrap();
+            assert_eq!(st(c::mla_reader_config_add_private_key(cfg, pem.as_ptr())), OK);
+        }
         let pem = CString::new(keypair(case.cfg.key_seed, case.cfg.reader).private_as_pem()).unwrap();
         assert_eq!(st(c::mla_reader_config_add_private_key(cfg, pem.as_ptr())), OK);
     }
@@ -466,7 +475,7 @@ impl Prop for C20 {
         "exploration"
     }
     fn rule(&self) -> String {
-        "run kinds. create: a seeded valid writer history (as C01, names without NUL; one run in 150 with a single append of 4..10 MiB) expressed through mla_config_* / mla_archive_* with a simulated write callback that accepts 1 byte, 1..n bytes or everything per call; the bytes collected by the callback must be an archive the Rust reader (prod build) reads back to the abstract model. extract: the archive goes through mla_roarchive_extract with simulated read/seek callbacks (1 byte, 1..n per read) and a file callback handing out one simulated writer per file (splitting schedules), declining a seeded subset: every accepted writer holds exactly the model's bytes, declined names receive nothing. failures: write callback failing from its k-th call on or ONLY at its k-th call, in three styles - error code with the count untouched; part of the buffer stored and reported, then the error code (what the project's own C samples do on ferror); whole length reported, nothing stored, error code - (whenever the callback did return a failure code, some call of the history or the final close must return a non-success status), read callback failing at its k-th call, the first per-file writer failing at its k-th call (same styles, same exact criterion), flush callback failing, missing private key: the status must not be success. null: each of 24 calls with a NULL handle, NULL out-pointer, NULL callback or a handle the interface itself cleared on release (config after mla_archive_new / mla_roarchive_extract, file after close, archive after close, double close) must return a non-success status; the worker process must survive. distinct_nontrivial = distinct (kind, recipients, schedule kinds, failure placement, outcome) signatures.".into()
+        "run kinds. create: a seeded valid writer history (as C01, names without NUL; one run in 150 with a single append of 4..10 MiB) expressed through mla_config_* / mla_archive_* with a simulated write callback that accepts 1 byte, 1..n bytes or everything per call; the bytes collected by the callback must be an archive the Rust reader (prod build) reads back to the abstract model. extract: the archive goes through mla_roarchive_extract with simulated read/seek callbacks (1 byte, 1..n per read) and a file callback handing out one simulated writer per file (splitting schedules), declining nothing, a seeded subset, every file, or every file but the last one; the recipients' public keys are given in one call or one call per key, the reader's private key now and then after two keys of non-recipients: every accepted writer holds exactly the model's bytes, declined names receive nothing. failures: write callback failing from its k-th call on or ONLY at its k-th call, in three styles - error code with the count untouched; part of the buffer stored and reported, then the error code (what the project's own C samples do on ferror); whole length reported, nothing stored, error code - (whenever the callback did return a failure code, some call of the history or the final close must return a non-success status), read callback failing at its k-th call, the first per-file writer failing at its k-th call (same styles, same exact criterion), flush callback failing, missing private key: the status must not be success. null: each of 24 calls with a NULL handle, NULL out-pointer, NULL callback or a handle the interface itself cleared on release (config after mla_archive_new / mla_roarchive_extract, file after close, archive after close, double close) must return a non-success status; the worker process must survive. distinct_nontrivial = distinct (kind, recipients, schedule kinds, failure placement, outcome) signatures.".into()
     }
     fn assumptions(&self) -> Vec<String> {
         vec![
@@ -527,7 +536,10 @@ impl Prop for C20 {
         case.params.insert("src_max".into(), *rng.pick(&[0i64, 1, 3, 50, 4096]));
         case.params.insert("file_max".into(), *rng.pick(&[0i64, 1, 5, 1000]));
         case.params.insert("sched_seed".into(), (rng.u64() >> 1) as i64);
-        case.params.insert("decline_mask".into(), if rng.chance(1, 2) { rng.below(32) as i64 } else { 0 });
+        // which files the file callback declines: none, a seeded subset, ALL of them, or all but the last one
+        case.params.insert("decline_mask".into(), match rng.below(8) { 0..=3 => 0, 4 | 5 => rng.below(32) as i64, 6 => 0x3fff_ffff, _ => -2 });
+        case.params.insert("split_keys".into(), i64::from(rng.chance(1, 3)));
+        case.params.insert("decoy_privs".into(), if rng.chance(1, 4) { 2 } else { 0 });
         case.params.insert("fail_kind".into(), rng.below(5) as i64);
         case.params.insert("fail_at".into(), rng.range(0, 30) as i64);
         case.params.insert("fail_style".into(), rng.below(3) as i64);
@@ -592,8 +604,9 @@ impl Prop for C20 {
         }
         if kind == 1 {
             // ---- extract through the C interface
-            let mask = case.param("decline_mask", 0) as u64;
-            let decline: Vec<String> = model.order.iter().enumerate().filter(|(i, _)| mask & (1 << (i % 5)) != 0).map(|(_, n)| n.clone()).collect();
+            let mask = case.param("decline_mask", 0);
+            // -2: every file but the last one is declined
+            let decline: Vec<String> = if mask == -2 { model.order.iter().take(model.order.len().saturating_sub(1)).cloned().collect() } else { model.order.iter().enumerate().filter(|(i, _)| (mask as u64) & (1 << (i % 5)) != 0).map(|(_, n)| n.clone()).collect() };
             let ex = match guard(|| c_extract(case, &w.image, &src_sched, &file_sched, None, None, decline.clone(), true)) {
                 Ok(e) => e,
                 Err(p) => {
